@@ -300,6 +300,9 @@ func ruleR6_1(w *World, r *Report) {
 			}
 			var toOut, toChan bool
 			for _, reg := range certRegions(fn) {
+				if !alwaysExecutedWith(reg.If, gs.Store) {
+					continue // the Certified test itself is conditional on something else
+				}
 				for _, e := range w.emissions(fn, reg) {
 					if mentions(e, clause) {
 						if e.ToChan {
